@@ -1172,6 +1172,9 @@ fn write_central_directory_header<T: Write>(writer: &mut T, file: &ZipFileData) 
     let mut zip64_extra_field = [0; 28];
     let zip64_extra_field_length =
         write_central_zip64_extra_field(&mut zip64_extra_field.as_mut(), file)?;
+    let extra_field_length: u16 = (zip64_extra_field_length as usize + file.extra_field.len())
+        .try_into()
+        .map_err(|_| ZipError::InvalidArchive("Extra data exceeds extra field"))?;
 
     // central file header signature
     writer.write_u32::<LittleEndian>(spec::CENTRAL_DIRECTORY_HEADER_SIGNATURE)?;
@@ -1202,7 +1205,7 @@ fn write_central_directory_header<T: Write>(writer: &mut T, file: &ZipFileData) 
     // file name length
     writer.write_u16::<LittleEndian>(file.file_name.as_bytes().len() as u16)?;
     // extra field length
-    writer.write_u16::<LittleEndian>(zip64_extra_field_length + file.extra_field.len() as u16)?;
+    writer.write_u16::<LittleEndian>(extra_field_length)?;
     // file comment length
     writer.write_u16::<LittleEndian>(0)?;
     // disk number start
@@ -1228,7 +1231,8 @@ fn write_central_directory_header<T: Write>(writer: &mut T, file: &ZipFileData) 
 fn validate_extra_data(file: &ZipFileData) -> ZipResult<()> {
     let mut data = file.extra_field.as_slice();
 
-    if data.len() > spec::ZIP64_ENTRY_THR {
+    // the local header also holds the 20-byte ZIP64 record of large files in this field
+    if data.len() + if file.large_file { 20 } else { 0 } > spec::ZIP64_ENTRY_THR {
         return Err(ZipError::Io(io::Error::new(
             io::ErrorKind::InvalidData,
             "Extra data exceeds extra field",
